@@ -8,7 +8,14 @@ import tempfile
 class Syn:
     def __init__(self, path, synfacts_bin=None):
         with open(path) as f:
-            self.j = json.load(f)
+            raw = f.read()
+        mirp0 = os.path.join(os.path.dirname(os.path.abspath(path)), "mir.json")
+        tren = _type_renames(mirp0) if os.path.exists(mirp0) else {}
+        if tren:
+            import re as _re
+            raw = _re.sub(r"\b(%s)\b" % "|".join(_re.escape(k) for k in tren), lambda m: tren[m.group(1)], raw)
+        self.j = json.loads(raw)
+        self.path = path
         self.files = {f["path"]: f for f in self.j["files"]}
         self.bin = synfacts_bin
         # accumulator loops (`let mut s = String::new(); for .. { s.push_str(..) }`) are read as the equivalent
@@ -40,8 +47,8 @@ class Syn:
     def all_fns(self, path=None, include_tests=False):
         """yields (file path, impl node or None, fn node)"""
         for p, f in self.files.items():
-            if path is not None and p != path:
-                continue
+            if path is not None and p != path and not (path.endswith(".rs") and p.startswith(path[:-3] + "/") and "/tests" not in p):
+                continue  # (a file's child modules — `x.rs` and `x/*.rs` — belong to it: code moved into one is still found)
             yield from _fns_in(p, f["items"], include_tests)
 
     def parse_snippets(self, snippets):
@@ -259,7 +266,7 @@ def _role_renames(mirp):
         from .mir import Mir
         from .roles import Roles
         try:
-            _RENAMES[mirp] = Roles(Mir(mirp)).source_renames()
+            _RENAMES[mirp] = Roles(Mir(mirp, canonical_roles=False)).source_renames()
         except Exception:
             _RENAMES[mirp] = {}
     return _RENAMES[mirp]
@@ -282,3 +289,18 @@ def _apply_renames(tree, ren):
             if any(s_ in ren for s_ in segs):
                 n["path"]["segs"] = [ren.get(s_, s_) for s_ in segs]
                 n["path"]["src"] = "::".join(n["path"]["segs"])
+
+
+_TRENAMES = {}
+
+
+def _type_renames(mirp):
+    if mirp not in _TRENAMES:
+        from .roles import type_renames
+        try:
+            with open(mirp) as f:
+                j = json.load(f)
+            _TRENAMES[mirp] = type_renames(j["adts"], j["impls"])
+        except Exception:
+            _TRENAMES[mirp] = {}
+    return _TRENAMES[mirp]
